@@ -3,8 +3,8 @@
 (* Obs_SqlProxyAuth.tla with what the fake upstream received from the real proxy.              *)
 EXTENDS Integers, FiniteSets
 CONSTANTS fwdTopics,  \* topics read by the text the proxy just forwarded upstream ({} if it forwarded nothing)
-          allow,      \* ACL allow list (exact names; {} = no allow list)
+          allow,      \* ACL allow list (exact names or the wildcard "*"; {} = no allow list)
           deny        \* ACL deny list
-Allowed(t) == t \notin deny /\ (allow = {} \/ t \in allow)
+Allowed(t) == t \notin deny /\ (allow = {} \/ "*" \in allow \/ t \in allow)
 C37_ForwardedAuthorized == \A t \in fwdTopics : Allowed(t)
 ====
